@@ -117,6 +117,17 @@ func runC11(c *fw.Case) (o fw.Outcome) {
 				o.Fail("suci-msin", "EncodeSuci(%s, mncLen %d) = %x decodes to MSIN %s, configured %s (%d digits)", imsi, mncLen, suci.Buffer, gs, msin, len(msin))
 				return
 			}
+			if other := 5 - mncLen; r.Intn(4) == 0 && len(imsi)-3-other >= 1 {
+				// the SAME digits read with the other MNC length, right after: another subscriber of another network, whose
+				// identity shares nothing with its predecessor's but the digit string
+				s2 := stgutg.EncodeSuci([]byte(imsi), other)
+				m2, n2, ms2, _, err2 := decSUCI(s2.Buffer)
+				o.Count("same_digits_other_mnc_length", 1)
+				if err2 != nil || m2 != mcc || n2 != imsi[3:3+other] || ms2 != imsi[3+other:] {
+					o.Fail("suci-same-digits-other-mnc-length", "EncodeSuci(%s, mncLen %d) right after EncodeSuci(%s, mncLen %d) = %x: decodes to MCC %s MNC %s MSIN %s (%v), expected %s %s %s", imsi, other, imsi, mncLen, s2.Buffer, m2, n2, ms2, err2, mcc, imsi[3:3+other], imsi[3+other:])
+					return
+				}
+			}
 			want := refPLMN(mcc, mnc)
 			if lib := nasConvert.PlmnIDToNas(models.PlmnId{Mcc: mcc, Mnc: mnc}); !bytes.Equal(lib, want) {
 				o.Fail("plmnidtonas", "PlmnIDToNas(%s,%s) = %x, TS 24.501 gives %x", mcc, mnc, lib, want)
